@@ -216,6 +216,10 @@ fn decide(e: &mut Eng, cur_ok: bool, costly: bool) -> Option<usize> {
     let k = choice_key(e, cur_ok, costly);
     e.choice_keys.push(k);
   }
+  if e.hash_states {
+    let h = state_hash(e);
+    e.state_hashes.push(h);
+  }
   e.choices.push(Choice { n: n as u8, chosen: c, pre_before: e.preempt, costly: cur_ok && costly });
   if cur_ok && costly && c != 0 {
     e.preempt += 1;
@@ -334,10 +338,6 @@ fn sched_point() {
       }
       e.solo = Some((t, b - 1));
       return Act::Go;
-    }
-    if e.hash_states {
-      let h = state_hash(&e);
-      e.state_hashes.push(h);
     }
     if let St::Parked(_) = e.st[cur] {
       e.st[cur] = St::Runnable;
@@ -1235,6 +1235,8 @@ pub fn explore(run: &Run, h: &Harness, xc: &ExploreCfg, tag: &str) -> ExploreSta
   let bounded = xc.bound < 200;
   let o = ExecOpts { tracing: false, hash_states: !xc.cache, hb: xc.hb, drain: xc.drain, cache: xc.cache, bounded };
   let mut seen: std::collections::HashMap<u64, u8> = std::collections::HashMap::new();
+  // distinct states of this harness, merged into the run's counter once at the end
+  let mut local_states: std::collections::HashSet<u64> = std::collections::HashSet::new();
   let mut pruned: u64 = 0;
   crate::crashguard::set_case(crate::crashguard::head_of(&json!({"engine": "sched", "tag": tag, "harness": h, "hb": xc.hb, "drain": xc.drain})));
   let mut first_trace: Option<Vec<String>> = None;
@@ -1261,7 +1263,7 @@ pub fn explore(run: &Run, h: &Harness, xc: &ExploreCfg, tag: &str) -> ExploreSta
       }
     }
     for hsh in &out.state_hashes {
-      run.states.insert(*hsh);
+      local_states.insert(*hsh);
     }
     if out.switches_in_op > 0 {
       run.nontrivial.insert(hash_of(&(h, out.outcome, out.viol.len())));
@@ -1327,6 +1329,9 @@ pub fn explore(run: &Run, h: &Harness, xc: &ExploreCfg, tag: &str) -> ExploreSta
     run.sample(|| json!({"engine": "sched", "harness": h, "programs": progs_str(&h.progs), "schedules": st.execs, "first_schedule_trace": first_trace.clone().unwrap_or_default().into_iter().take(40).collect::<Vec<_>>()}));
   }
   crate::crashguard::clear_case();
+  for hsh in &local_states {
+    run.states.insert(*hsh);
+  }
   st.pruned = pruned;
   st.states = seen.len() as u64;
   st
